@@ -41,7 +41,7 @@ CFG = dict(
         "use_lru_element / get_mru_element are only called on LRU caches (cache->impl is a precondition)",
     ],
     min_counts={"any": {
-        "null_key_evicted_on_overflow": 100, "int_keys_lru": 100, "int_keys_lifo": 100, "int_keys_fifo": 100,
+        "null_key_evicted_on_overflow": 100, "cache_capacity_above_32768_filled_to_overflow": 10, "int_keys_lru": 100, "int_keys_lifo": 100, "int_keys_fifo": 100,
         "overwrite_distinct_key_pointer": 100, "overwrite_same_key_pointer": 100, "evict_fifo": 100, "evict_lifo": 100,
         "evict_lru": 100, "overwrite_of_would_be_victim": 100, "capacity1_eviction": 50, "remove_then_refill": 100,
         "lru_find_reorders": 100, "use_lru_element": 100, "get_mru_element": 100, "clear_nonempty": 100,
